@@ -17,26 +17,75 @@ open Spec
 
 /-! ## 1. Error contract -/
 
-/-- **C20_error_contract.** For every platform module, every errno in {ESRCH, ENOENT, EPERM,
-    EACCES, EIO, EINVAL}, every `winerror` value, every pid and every pid state (as seen by the
-    module's own probe), the `wrap_exceptions` decorator assembled from the `except` clauses the
-    translator found in the current source produces exactly the cell of the contract table:
-    NoSuchProcess / ZombieProcess / AccessDenied with pid and cached name, or the error unchanged
-    (BSD and Solaris: AccessDenied for the existing PID 0). -/
-theorem C20_error_contract (f : Family) (e : Err) (env : Env) :
+/-- The statement at full strength: for every platform module, every errno in {ESRCH, ENOENT, EPERM,
+    EACCES, EIO, EINVAL}, every `winerror` value, every pid and every pid state — the state being
+    what the process IS (gone / zombie / alive), not what the module's probe can tell — the
+    `wrap_exceptions` decorator produces exactly the cell of the contract table. FALSE of the code as
+    it is (`C20_error_contract_counterexample`): Solaris and AIX have no zombie probe. -/
+def C20_error_contract_Full : Prop :=
+  ∀ (f : Family) (e : Err) (env : Env), wrapExceptions cfg f e env = Spec.contract f e env
+
+/-- **C20_error_contract_partial.** For every platform module, every errno, every `winerror`, every
+    pid, every pid state and pid-0 listing OUTSIDE the region `Spec.knownZombieDeviation` (Solaris /
+    AIX, a "no such process" failure on a process that is alive, or on Solaris' PID 0 that is gone;
+    finding C20-sunos-aix-exists-means-zombie), the `wrap_exceptions` decorator assembled from the
+    `except` clauses the translator found in the current source produces exactly the cell of the
+    contract table: NoSuchProcess / ZombieProcess / AccessDenied with pid and cached name, or the
+    error unchanged (BSD and Solaris: AccessDenied for the existing PID 0). The region is empty on
+    BSD, macOS and Windows (`C20_error_contract_bsd_osx_windows`): full strength there. -/
+theorem C20_error_contract_partial (f : Family) (e : Err) (env : Env)
+    (hdev : Spec.knownZombieDeviation f e env = false) :
     wrapExceptions cfg f e env = Spec.contract f e env := by
   unfold wrapExceptions
   rw [runClauses_eq_dispatch, dispatch_cfg]
   obtain ⟨errno, winerror⟩ := e
   obtain ⟨pid, state, listed⟩ := env
   cases f <;> cases errno <;>
-    simp [actionTable, pyClass, runAction, contract, kind, probeSeesZombie, pid0Exception, isZombie,
-      pidExists, winCfg_generated]
+    simp [actionTable, pyClass, runAction, contract, kind, listedAsZombie, pid0Exception, isZombie,
+      pidExists, winCfg_generated, knownZombieDeviation] at hdev ⊢
   all_goals first
-    | (by_cases h : pid = 0 <;> cases state <;> simp_all)
+    | (by_cases h : pid = 0 <;> cases state <;> simp_all <;> done)
     | (simp only [convertOserror, convertOserrorGo, isPermissionErr, pyClass]
        by_cases h5 : winerror = some 5 <;> by_cases h13 : winerror = some 1314 <;>
          cases winerror <;> simp_all)
+
+/-- **C20_error_contract_bsd_osx_windows.** Full strength on the three families that have a zombie
+    probe or no zombies: no region excluded. -/
+theorem C20_error_contract_bsd_osx_windows (f : Family) (hf : f = .bsd ∨ f = .osx ∨ f = .windows) (e : Err) (env : Env) :
+    wrapExceptions cfg f e env = Spec.contract f e env := by
+  apply C20_error_contract_partial
+  rcases hf with rfl | rfl | rfl <;> simp [knownZombieDeviation]
+
+/-- **C20_error_contract_deviation.** What the code does in the excluded region, exactly: the Solaris /
+    AIX decorator reports ZombieProcess(pid, name, ppid) where the contract cell is
+    NoSuchProcess(pid, name) — `pid_exists()` is its only probe, so "still there" is taken for
+    "zombie" (and `_psposix.pid_exists(0)` is always True on Solaris). -/
+theorem C20_error_contract_deviation (f : Family) (e : Err) (env : Env)
+    (hdev : Spec.knownZombieDeviation f e env = true) :
+    wrapExceptions cfg f e env = .zombie env.pid true ∧ Spec.contract f e env = .nsp env.pid true := by
+  unfold wrapExceptions
+  rw [runClauses_eq_dispatch, dispatch_cfg]
+  obtain ⟨errno, winerror⟩ := e
+  obtain ⟨pid, state, listed⟩ := env
+  cases f <;> cases errno <;> cases state <;>
+    simp [actionTable, pyClass, runAction, contract, kind, listedAsZombie, pid0Exception, isZombie,
+      pidExists, knownZombieDeviation] at hdev ⊢ <;> simp_all
+
+/-- the full statement is false of the code as it is: a RUNNING Solaris process whose native call
+    fails with ESRCH is reported as ZombieProcess (witness replayed by the harness on the real
+    `_pssunos.wrap_exceptions`; finding C20-sunos-aix-exists-means-zombie) -/
+theorem C20_error_contract_counterexample : ¬ C20_error_contract_Full := by
+  intro h
+  have := h .sunos ⟨.ESRCH, none⟩ ⟨42, .alive, true⟩
+  revert this
+  decide
+
+/-- the region is not empty and is exactly where the two differ -/
+example : wrapExceptions cfg .aix ⟨.ENOENT, none⟩ ⟨42, .alive, true⟩ = .zombie 42 true ∧
+    Spec.contract .aix ⟨.ENOENT, none⟩ ⟨42, .alive, true⟩ = .nsp 42 true ∧
+    wrapExceptions cfg .sunos ⟨.ESRCH, none⟩ ⟨0, .gone, false⟩ = .zombie 0 true ∧
+    wrapExceptions cfg .sunos ⟨.ESRCH, none⟩ ⟨42, .zombie, true⟩ = Spec.contract .sunos ⟨.ESRCH, none⟩ ⟨42, .zombie, true⟩ := by
+  decide
 
 /-- the hypotheses are met by a non-trivial case: a zombie on FreeBSD is reported as ZombieProcess -/
 example : wrapExceptions cfg .bsd ⟨.ESRCH, none⟩ ⟨42, .zombie, true⟩ = .zombie 42 true := by decide
@@ -56,16 +105,17 @@ theorem C20_zombie_probe_sees_documented_codes :
 
 /-- **C20_error_contract_status_codes.** The contract in terms of the native status code: for every
     identity, every status code of its table (or no record at all: gone), every error, pid and
-    pid-0 listing, the decorator — with the pid state as `is_zombie` derives it from that code —
+    pid-0 listing (outside the known Solaris / AIX deviation region, which is empty for the BSDs, macOS
+    and Windows), the decorator — with the pid state as `is_zombie` derives it from that code —
     yields the contract cell for the world in which the process is a zombie iff the platform
     documents the code as zombie. In particular ESRCH on an OpenBSD `SDEAD` process is
     ZombieProcess(pid, name, ppid), not NoSuchProcess. -/
 theorem C20_error_contract_status_codes :
     ∀ p ∈ Platform.all, ∀ status ∈ none :: (statusCodesOf p).map some, ∀ (e : Err) (pid : Nat) (listed : Bool),
+      Spec.knownZombieDeviation p.family e (Spec.docEnv p pid status listed) = false →
       wrapExceptions cfg p.family e (probeEnv zcfg p pid status listed)
         = Spec.contract p.family e (Spec.docEnv p pid status listed) := by
-  intro p hp status hs e pid listed
-  rw [C20_error_contract]
+  intro p hp status hs e pid listed hdev
   have henv : probeEnv zcfg p pid status listed = Spec.docEnv p pid status listed := by
     cases status with
     | none => rfl
@@ -73,6 +123,7 @@ theorem C20_error_contract_status_codes :
       have hc : c ∈ statusCodesOf p := by simpa using hs
       simp [probeEnv, Spec.docEnv, C20_zombie_probe_sees_documented_codes p hp c hc]
   rw [henv]
+  exact C20_error_contract_partial _ _ _ hdev
 
 /-- non-vacuous: OpenBSD, ESRCH, status slot = SDEAD → ZombieProcess; a probe that compares with
     `SZOMB` only would answer NoSuchProcess there -/
@@ -81,12 +132,13 @@ example : wrapExceptions cfg .bsd ⟨.ESRCH, none⟩ (probeEnv zcfg .openbsd 42 
       (probeEnv { zcfg with probe := fun _ => .eqConst "SZOMB" } .openbsd 42 (some "SDEAD") true) = .nsp 42 true := by
   decide +kernel
 
-/-- **C20_error_contract_methods.** The contract holds for every method of the generated
-    per-platform method list that carries the decorator: whatever OSError leaves its body. -/
-theorem C20_error_contract_methods (p : Platform) (m : Method) (_hm : m ∈ methodsOf p)
-    (hw : m.wrapped = true) (e : Err) (env : Env) :
+/-- **C20_error_contract_methods.** Corollary: whatever OSError leaves the body of a method that
+    carries the decorator meets the contract cell (outside the known Solaris / AIX deviation region).
+    Which methods carry it is `C20_all_methods_wrapped`. -/
+theorem C20_error_contract_methods (p : Platform) (m : Method)
+    (hw : m.wrapped = true) (e : Err) (env : Env) (hdev : Spec.knownZombieDeviation p.family e env = false) :
     escape cfg p m e env = Spec.contract p.family e env := by
-  simp [escape, hw, C20_error_contract]
+  simp [escape, hw, C20_error_contract_partial _ _ _ hdev]
 
 /-- the generated lists are not empty: FreeBSD's `cpu_times` is there and is decorated -/
 example : ∃ m ∈ methodsOf .freebsd, m.name = "cpu_times" ∧ m.wrapped = true := by decide
@@ -154,15 +206,29 @@ theorem C20_inner_handlers_transcribed :
 
 /-- full statement about the code as the translator sees it now: for every platform identity,
     every method, every native call the method makes (as traced under emulation), every swept
-    error and every pid state, the outcome is one the specification allows -/
+    error and every pid state, the outcome is one the specification allows — `Spec.allowed` and
+    nothing else (no call site excluded, no deviation tolerated). FALSE of the code as it is:
+    `C20_method_faults_not_full`. -/
 def C20_method_faults_within_spec_Full : Prop :=
+  ∀ p ∈ Platform.all, ∀ row ∈ tracesOf p, traceRowStrict p row = true
+
+/-- the same with the ONE known deviation accepted in its region (`zombieDeviation`: Solaris / AIX,
+    "no such process" failure, process still there but not a zombie → ZombieProcess(pid, name,
+    ppid); finding C20-sunos-aix-exists-means-zombie); no call site excluded -/
+def C20_method_faults_within_spec_Tolerant : Prop :=
   ∀ p ∈ Platform.all, ∀ row ∈ tracesOf p, traceRowOK true p row = true
 
-/-- **C20_method_faults_within_spec.** Full strength, for the repaired configuration (Windows
-    `ppid()` decorated, `memory_maps()` converting inside its loop): every platform identity ×
-    method × native call of its trace × swept error × pid state × pid-0 listing gives an
-    outcome the specification allows. No call site is excluded. -/
-theorem C20_method_faults_within_spec :
+/-- the tolerated outcome exists on Solaris and AIX only -/
+theorem zombieDeviation_only_sunos_aix (p : Platform) (e : Err) (env : Env) (o : Outcome)
+    (h1 : p.family ≠ .sunos) (h2 : p.family ≠ .aix) : zombieDeviation p e env o = false := by
+  simp [zombieDeviation, Spec.knownZombieDeviation, h1, h2]
+
+/-- **C20_method_faults_within_spec_repaired_cfg.** For the configuration with both Windows repairs
+    (`ppid()` decorated, `memory_maps()` converting inside its loop), whatever the tree says: every
+    platform identity × method × native call of its trace × swept error × pid state × pid-0 listing
+    gives an outcome the specification allows, or the known Solaris / AIX zombie deviation in its
+    region. No call site is excluded. -/
+theorem C20_method_faults_within_spec_repaired_cfg :
     ∀ p ∈ Platform.all, ∀ row ∈ tracesOf p,
       traceRowOKc (variantCfg true) (variantMethod true) (fun _ _ _ => false) p row = true :=
   faults_table_repaired
@@ -170,15 +236,15 @@ theorem C20_method_faults_within_spec :
 /-- **C20_method_faults_within_spec_current.** The same for the code exactly as the translator
     reads it from the current tree. A call site is excluded only while its repair is absent from
     the source (`knownFinding` consults the generated decorator list of `ppid` and the generated
-    flag `winMapsLoopGuarded`): on a tree with both repairs this *is* the full statement. -/
+    flag `winMapsLoopGuarded`): on a tree with both repairs nothing is excluded. -/
 theorem C20_method_faults_within_spec_current :
     ∀ p ∈ Platform.all, ∀ row ∈ tracesOf p, traceRowOK false p row = true :=
   faults_table_current
 
-/-- once both repairs are in the source, nothing is excluded: the current-tree theorem is the full one -/
-theorem C20_method_faults_full_when_repaired
+/-- once both repairs are in the source, no call site is excluded -/
+theorem C20_method_faults_tolerant_when_repaired
     (h1 : nameWrapped .windows "ppid" = true) (h2 : cfg.winMapsLoopGuarded = true) :
-    C20_method_faults_within_spec_Full := by
+    C20_method_faults_within_spec_Tolerant := by
   intro p hp row hrow
   have h := C20_method_faults_within_spec_current p hp row hrow
   have hk : ∀ q m c, knownFinding q m c = false := by
@@ -230,14 +296,18 @@ theorem C20_method_faults_not_full_unrepaired :
     partial-copy retry —, the native calls it still makes): whatever first error `e1` put the
     method on that path (ANY `Err`, not only the swept ones), every later call of the row ×
     every swept second error × pid state × pid-0 listing gives an outcome the specification
-    allows for the second failure (its contract cell, or what is recoverable at that call). -/
+    allows for the second failure (its contract cell, or what is recoverable at that call) — or,
+    on Solaris / AIX only, the one known deviation (`zombieDeviation`: ZombieProcess for a process
+    that is still there but not a zombie; finding C20-sunos-aix-exists-means-zombie). On the BSDs,
+    macOS and Windows the second disjunct is never true (`zombieDeviation_only_sunos_aix`). -/
 theorem C20_two_faults_within_spec :
     ∀ p ∈ Platform.all, ∀ row ∈ traces2Of p, ∀ m, methodOf? p row.1 = some m →
       ∀ mode, Mode.ofTag? row.2.2.2.1 = some mode →
       ∀ call2 ∈ row.2.2.2.2, ∀ e2 ∈ sweptErrs p, ∀ env ∈ sweptEnvs row.2.1, ∀ (e1 : Err) (s : Nat),
         afterFirst cfg p m row.2.2.1 e1 env = .goesOn mode s →
-        Spec.allowed2 p m.name row.2.2.1 e1 call2 e2 env
-          (methodFault2 cfg p m row.2.2.1 e1 call2 e2 env).1 = true := by
+        (Spec.allowed2 p m.name row.2.2.1 e1 call2 e2 env
+          (methodFault2 cfg p m row.2.2.1 e1 call2 e2 env).1 = true ∨
+         zombieDeviation p e2 env (methodFault2 cfg p m row.2.2.1 e1 call2 e2 env).1 = true) := by
   intro p hp row hrow m hm mode hmode call2 hc e2 he env henv e1 s hafter
   have h := two_faults_table p hp row hrow
   unfold row2OK at h
@@ -408,11 +478,12 @@ theorem C20_mac_padding (c : Cfg) (windows : Bool) (r : RawAddr) (h : r.fam = .l
     (netIfAddrsEntry c windows r).mac = Spec.macPadded (if windows then '-' else ':') r.mac := by
   have hfam : (r.fam == AddrFam.inet) = false := by rw [h]; decide
   have hlink : (r.fam == AddrFam.link) = true := by rw [h]; decide
+  have h6 : (r.fam == AddrFam.inet6) = false := by rw [h]; decide
   have key : ∀ sep : Char, sep ≠ '0' → padMac sep r.mac = Spec.macPadded sep r.mac := by
     intro sep h0
     exact padMacGo_spec sep h0 5 r.mac (by omega)
   cases windows <;>
-    simp [netIfAddrsEntry, hfam, hlink, key ':' (by decide), key '-' (by decide)]
+    simp [netIfAddrsEntry, hfam, hlink, h6, key ':' (by decide), key '-' (by decide)]
 
 example : (netIfAddrsEntry cfg false ⟨.link, "00:1a".toList, 0, none, none⟩).mac = "00:1a:00:00:00:00".toList := by
   decide
@@ -514,10 +585,43 @@ theorem C20_front_disk_io_kwargs (perdisk : Bool) :
 theorem cfg_win_ppid_wrapped : nameWrapped .windows "ppid" = true := by decide
 theorem cfg_win_maps_loop_guarded : cfg.winMapsLoopGuarded = true := by decide
 
-/-- **C20_method_faults_within_spec_code.** The full statement — no call site excluded — for the code
-    as it is now. -/
-theorem C20_method_faults_within_spec_code : C20_method_faults_within_spec_Full :=
-  C20_method_faults_full_when_repaired cfg_win_ppid_wrapped cfg_win_maps_loop_guarded
+/-- **C20_method_faults_within_spec_partial.** For the code as it is now, no call site excluded:
+    every platform identity × method × native call of its trace × swept error × pid state × pid-0
+    listing gives an outcome the specification allows — or, on Solaris / AIX, ZombieProcess(pid,
+    name, ppid) in the region of finding C20-sunos-aix-exists-means-zombie (and nothing else). -/
+theorem C20_method_faults_within_spec_partial : C20_method_faults_within_spec_Tolerant :=
+  C20_method_faults_tolerant_when_repaired cfg_win_ppid_wrapped cfg_win_maps_loop_guarded
+
+/-- **C20_method_faults_within_spec_bsd_osx_windows.** FULL strength (strict judgement) on FreeBSD,
+    OpenBSD, NetBSD, macOS and Windows: the deviation does not exist there. -/
+theorem C20_method_faults_within_spec_bsd_osx_windows :
+    ∀ p ∈ [Platform.freebsd, .openbsd, .netbsd, .macos, .windows], ∀ row ∈ tracesOf p, traceRowStrict p row = true := by
+  intro p hp row hrow
+  have hall : p ∈ Platform.all := Platform.mem_all p
+  have h := C20_method_faults_within_spec_partial p hall row hrow
+  have hf : p.family ≠ .sunos ∧ p.family ≠ .aix := by
+    simp only [List.mem_cons, List.mem_nil_iff, or_false] at hp
+    rcases hp with rfl | rfl | rfl | rfl | rfl <;> decide
+  have hk : ∀ q m c, knownFinding q m c = false := by
+    intro q m c; simp [knownFinding, cfg_win_ppid_wrapped, cfg_win_maps_loop_guarded]
+  unfold traceRowStrict
+  rw [← traceRowOKt_strict_of_family true _ _ _ p row hf.1 hf.2]
+  simpa [traceRowOK, traceRowOKc, hk] using h
+
+/-- **C20_method_faults_not_full.** The strict statement is false of the code as it is: Solaris
+    `cpu_times()` on a RUNNING process whose `proc_cpu_times` call fails with ESRCH raises
+    ZombieProcess; the specification allows only NoSuchProcess there (finding
+    C20-sunos-aix-exists-means-zombie; witness replayed on the real module by the harness). -/
+theorem C20_method_faults_not_full : ¬ C20_method_faults_within_spec_Full := by
+  intro h
+  have h1 := h .sunos (by decide) ("cpu_times", 42, ["proc_cpu_times"]) (by decide +kernel)
+  revert h1
+  decide +kernel
+
+example : (methodFault cfg .sunos ⟨"cpu_times", ["wrap_exceptions"]⟩ "proc_cpu_times" ⟨.ESRCH, none⟩ ⟨42, .alive, true⟩ false).1
+      = .zombie 42 true ∧
+    Spec.allowed .sunos "cpu_times" .none ⟨.ESRCH, none⟩ ⟨42, .alive, true⟩ (.zombie 42 true) = false ∧
+    Spec.allowed .sunos "cpu_times" .none ⟨.ESRCH, none⟩ ⟨42, .alive, true⟩ (.nsp 42 true) = true := by decide
 
 /-! ## 6. Round 2: the native C calls, documented namedtuple fields, identity / equality / signals -/
 
@@ -525,7 +629,7 @@ theorem C20_method_faults_within_spec_code : C20_method_faults_within_spec_Full 
     has slots and as the emulator's stub record has positions; the reviewed table names a C
     expression for exactly the map's slots; and the argument at the index the Python map gives a
     slot IS the C expression the table gives for that slot name -/
-def nativeOrderOK (key ident : String) : Bool :=
+def nativeOrderOKExcept (skip : String → String → String → Bool) (key ident : String) : Bool :=
   let sm := slotMapOf key
   match nativeArgsOf key ident, Spec.slotCExpr.lookup (key, ident) with
   | some (fmt, args), some tbl =>
@@ -533,9 +637,16 @@ def nativeOrderOK (key ident : String) : Bool :=
     stubLenOf key ident == some args.length &&
     sm.all fun kv =>
       match tbl.lookup kv.1 with
-      | some ce => args[kv.2]? == some ce
+      | some ce => skip key ident kv.1 || args[kv.2]? == some ce
       | none => false
   | _, _ => false
+
+def nativeOrderOK (key ident : String) : Bool := nativeOrderOKExcept (fun _ _ _ => false) key ident
+
+/-- the one slot whose C argument is known to differ from the intended member
+    (finding C20-bsd-saved-gid, PENDING(fixes/C20-bsd-saved-gid.diff)) -/
+def savedGidSlot (key ident slot : String) : Bool :=
+  key == "bsd.kinfo_proc_map" && ["freebsd", "openbsd", "netbsd"].contains ident && slot == "saved_gid"
 
 /-- a native tuple the Python side unpacks positionally: the C arguments are the table's, in order -/
 def nativeTupleOK (k : String × String) : Bool :=
@@ -544,40 +655,66 @@ def nativeTupleOK (k : String × String) : Bool :=
     args == tbl.map (·.2) && fmt.length == args.length && stubLenOf k.1 k.2 == some args.length
   | _, _ => false
 
-/-- **C20_native_slot_order.** For `kinfo_proc_map` (FreeBSD, OpenBSD, NetBSD, macOS),
+/-- The statement at full strength. For `kinfo_proc_map` (FreeBSD, OpenBSD, NetBSD, macOS),
     `pidtaskinfo_map`, both `proc_info_map`s and `pinfo_map`: slot `i` of the Python map is the
     `i`-th argument of the `Py_BuildValue` call of the C function that builds the record — the
     call itself (format string and argument list, read by the translator through the
-    preprocessor branch of each identity), matched by name through the reviewed table
-    `Spec.slotCExpr`. The same for the native tuples unpacked positionally (`proc_cred`,
-    `proc_cpu_times`, `proc_num_ctx_switches`, `proc_io_counters`, `proc_times`,
-    `proc_memory_info`). The stub records of the emulation have the same length; there is no
-    parsed call outside the two tables; and the Windows tuple orders are the field orders of
-    `pmem` (after `rss`, `vms`) and `pio`. A swapped C argument, a swapped Python index, an added
-    or dropped slot on either side breaks this. -/
-theorem C20_native_slot_order :
+    preprocessor branch of each identity) — and that argument is the struct member the slot is
+    NAMED FOR (`Spec.slotCExpr`: the intended member, e.g. `saved_gid` ↦ `ki_svgid` / `p_svgid`).
+    The same for the native tuples unpacked positionally. FALSE of the code as it is
+    (`C20_native_slot_order_counterexample`). -/
+def C20_native_slot_order_Full : Prop :=
     (∀ k ∈ slotMapKeys, nativeOrderOK k.1 k.2 = true) ∧
+    (∀ k ∈ Spec.tupleCExpr.map (·.1), nativeTupleOK k = true) ∧
+    (∀ r ∈ Gen.C20.nativeArgs, r.1 ∈ slotMapKeys ∨ r.1 ∈ Spec.tupleCExpr.map (·.1)) ∧
+    ((Spec.tupleCExpr.lookup ("proc_memory_info", "windows")).map (·.map (·.1)) = some Spec.winMemTupleFields) ∧
+    ((Spec.tupleCExpr.lookup ("proc_io_counters", "windows")).map (·.map (·.1)) = actualFieldsOf .windows "pio")
+
+/-- **C20_native_slot_order_partial.** The full statement for every slot of every record except
+    ONE: `saved_gid` of `kinfo_proc_map` on FreeBSD / OpenBSD / NetBSD (see the counterexample).
+    Everything else — 135 of the 136 slot rows, the argument counts, format units, stub record
+    lengths, the positional native tuples (`proc_cred`, `proc_cpu_times`, `proc_num_ctx_switches`,
+    `proc_io_counters`, `proc_times`, `proc_memory_info`), "no parsed call outside the tables", the
+    Windows tuple orders = field orders of `pmem` (after `rss`, `vms`) and `pio` — holds. A swapped
+    C argument, a swapped Python index, an added or dropped slot on either side breaks this. -/
+theorem C20_native_slot_order_partial :
+    (∀ k ∈ slotMapKeys, nativeOrderOKExcept savedGidSlot k.1 k.2 = true) ∧
     (∀ k ∈ Spec.tupleCExpr.map (·.1), nativeTupleOK k = true) ∧
     (∀ r ∈ Gen.C20.nativeArgs, r.1 ∈ slotMapKeys ∨ r.1 ∈ Spec.tupleCExpr.map (·.1)) ∧
     ((Spec.tupleCExpr.lookup ("proc_memory_info", "windows")).map (·.map (·.1)) = some Spec.winMemTupleFields) ∧
     ((Spec.tupleCExpr.lookup ("proc_io_counters", "windows")).map (·.map (·.1)) = actualFieldsOf .windows "pio") := by
   decide +kernel
 
+/-- macOS, Solaris, AIX and Windows records, and the five other records: nothing is excepted there -/
+theorem C20_native_slot_order_other_records :
+    ∀ k ∈ slotMapKeys, k.1 ≠ "bsd.kinfo_proc_map" → nativeOrderOK k.1 k.2 = true := by
+  decide +kernel
+
+/-- **C20_native_slot_order_counterexample.** The full statement is false of the code as it is: on
+    each of the three BSDs the argument `Py_BuildValue` is given at the index of
+    `kinfo_proc_map['saved_gid']` is NOT the saved gid member (`ki_svgid` / `p_svgid`) but the very
+    expression passed at `kinfo_proc_map['saved_uid']` — the saved *uid* member: `gids().saved` is the
+    saved uid there (finding C20-bsd-saved-gid, PENDING(fixes/C20-bsd-saved-gid.diff)). Witness =
+    the parsed C call (the native layer cannot be executed here). -/
+theorem C20_native_slot_order_counterexample :
+    ¬ C20_native_slot_order_Full ∧
+    ∀ ident ∈ ["freebsd", "openbsd", "netbsd"],
+      (match nativeArgsOf "bsd.kinfo_proc_map" ident, (Spec.slotCExpr.lookup ("bsd.kinfo_proc_map", ident)),
+             (slotMapOf "bsd.kinfo_proc_map").lookup "saved_gid", (slotMapOf "bsd.kinfo_proc_map").lookup "saved_uid" with
+       | some (_, args), some tbl, some g, some u =>
+         g != u && args[g]? == args[u]? && (args[g]?).isSome && args[g]? != tbl.lookup "saved_gid"
+           && args[u]? == tbl.lookup "saved_uid"
+       | _, _, _, _ => false) = true := by
+  constructor
+  · intro h
+    have := h.1 ("bsd.kinfo_proc_map", "freebsd") (by decide)
+    revert this
+    decide +kernel
+  · decide +kernel
+
 /-- non-vacuous: FreeBSD's slot 14 (`user_time`) is `PSUTIL_TV2DOUBLE(kp.ki_rusage.ru_utime)` -/
 example : (nativeArgsOf "bsd.kinfo_proc_map" "freebsd").map (·.2[14]?) = some (some "PSUTIL_TV2DOUBLE(kp.ki_rusage.ru_utime)") ∧
     (slotMapOf "bsd.kinfo_proc_map").lookup "user_time" = some 14 := by decide +kernel
-
-/-- **C20_native_saved_gid_characterisation.** (Native layer, beyond the statement.) On the three
-    BSDs the argument at the slot the Python side calls `saved_gid` is the same C expression as
-    the one at `saved_uid` — the saved *uid* member (`ki_svuid` / `p_svuid`): `gids().saved` is
-    the saved uid there. -/
-theorem C20_native_saved_gid_characterisation :
-    ∀ ident ∈ ["freebsd", "openbsd", "netbsd"],
-      (match nativeArgsOf "bsd.kinfo_proc_map" ident,
-             (slotMapOf "bsd.kinfo_proc_map").lookup "saved_gid", (slotMapOf "bsd.kinfo_proc_map").lookup "saved_uid" with
-       | some (_, args), some g, some u => g != u && args[g]? == args[u]? && (args[g]?).isSome
-       | _, _, _ => false) = true := by
-  decide +kernel
 
 /-- one documented field list against the namedtuple the package defines on that platform -/
 def fieldsRowOK (p : Platform) (row : String × String × Bool × List String) : Bool :=
@@ -638,22 +775,45 @@ theorem C20_api_fields_gaps_characterisation :
 def ctimeRows (p : Platform) : List (String × Nat × List String) :=
   (tracesOf p).filter fun r => r.1 == "create_time"
 
-def identRowOK (p : Platform) (row : String × Nat × List String) : Bool :=
+def identRowOK (tol : Bool) (p : Platform) (row : String × Nat × List String) : Bool :=
   match methodOf? p "create_time" with
   | none => false
   | some m =>
     row.2.2.all fun call => (sweptErrs p).all fun e => (sweptEnvs row.2.1).all fun env =>
       [true, false].all fun ign =>
-        frontInit ign 1 (identFault cfg p m call e env) == Spec.initExpected p e env ign
+        if tol && Spec.knownZombieDeviation p.family e env then
+          -- known deviation: the Solaris / AIX decorator says ZombieProcess, the constructor keeps (pid, None)
+          frontInit ign 1 (identFault cfg p m call e env) == .built none none false
+        else frontInit ign 1 (identFault cfg p m call e env) == Spec.initExpected p e env ign
 
-/-- **C20_front_ident.** `Process(pid)` on every identity: for every native call the creation-time
+/-- full strength: what the constructor is left with is what the contract cell says, everywhere -/
+def C20_front_ident_Full : Prop :=
+  ∀ p ∈ Platform.all, ctimeRows p ≠ [] ∧ ∀ row ∈ ctimeRows p, identRowOK false p row = true
+
+/-- **C20_front_ident_partial.** `Process(pid)` on every identity: for every native call the creation-time
     query makes × swept error × pid state × pid-0 listing × `_ignore_nsp`: what the constructor
     is left with — `_ident = (pid, None)` for a permission failure or a zombie, NoSuchProcess
     "process PID not found" (or the gone flag), another error unchanged — is what the contract
-    cell of that failure says. On Windows this holds *because* the identity uses
-    `create_time(fast_only=True)`: no slower fall-back hides the permission failure. -/
-theorem C20_front_ident :
-    ∀ p ∈ Platform.all, ctimeRows p ≠ [] ∧ ∀ row ∈ ctimeRows p, identRowOK p row = true := by
+    cell of that failure says; in the region of finding C20-sunos-aix-exists-means-zombie (Solaris /
+    AIX only) the constructor instead keeps `(pid, None)` for a process that is not a zombie. On
+    Windows this holds *because* the identity uses `create_time(fast_only=True)`: no slower fall-back
+    hides the permission failure. -/
+theorem C20_front_ident_partial :
+    ∀ p ∈ Platform.all, ctimeRows p ≠ [] ∧ ∀ row ∈ ctimeRows p, identRowOK true p row = true := by
+  decide +kernel
+
+/-- full strength on the identities without the deviation -/
+theorem C20_front_ident_bsd_osx_windows :
+    ∀ p ∈ [Platform.freebsd, .openbsd, .netbsd, .macos, .windows],
+      ctimeRows p ≠ [] ∧ ∀ row ∈ ctimeRows p, identRowOK false p row = true := by
+  decide +kernel
+
+/-- the full statement fails on Solaris: `Process(42)` of a running process whose creation-time query
+    meets ESRCH is built with `(42, None)` instead of raising NoSuchProcess -/
+theorem C20_front_ident_counterexample_sunos : ¬ C20_front_ident_Full := by
+  intro h
+  have := (h .sunos (by decide)).2
+  revert this
   decide +kernel
 
 /-- without a fault the identity is (pid, creation time) and the creation time is cached -/
@@ -741,7 +901,7 @@ theorem C20_front_send_signal_windows_contract (meth : String) (hm : meth = "sen
   have hi : inner cfg .windows meth call = .escapes := by
     rcases hm with rfl | rfl <;> rcases hc with rfl | rfl <;> decide
   simp [methodFault, body, hi, bodyWith, finish, Method.retries, escape, Method.wrapped]
-  exact C20_error_contract .windows e env
+  exact C20_error_contract_bsd_osx_windows .windows (by simp) e env
 
 /-- the two methods are in the generated list with exactly that decorator -/
 example : methodOf? .windows "send_signal" = some ⟨"send_signal", ["wrap_exceptions"]⟩ ∧
